@@ -13,6 +13,10 @@ CHECKS = {
    technique="runtime monitoring: output read back by an independent RTF reader and compared with the input frame; conservation hook on the three paginate() methods",
    text="For every generated table (all strategies, nrow 1..50, wrapped rows, header/footnote/source variants, single and multi-section) the parsed data rows of all pages, concatenated, must equal the DataFrame's display texts in order; every table row must be classifiable by sentinel; a hook on DefaultPaginationStrategy/PageByStrategy/SublineStrategy.paginate asserts that the page slices partition the frame. Includes a completely enumerated rows x nrow x strategy x header grid.",
    note="trusted: reader; sentinel tagging of one key column per table; group_by absent (C13)"),
+ "C12": dict(cat="exploration", ref="5/C12",
+   technique="runtime monitoring: every colour/font reference of the parsed output resolved through the parsed colour/font tables; state hook on get_rtf_color_index",
+   text="All 657 named colours (each at least once) and random palettes are placed on every component as text/background/border colour in single-section, multi-section and figure documents; every \\cf/\\cb/\\chcbpat/\\brdrcf index in the parsed output must lie inside the document's own colour table and, for sentinel-tagged elements, resolve to the RGB of the requested name (0 <=> default); every \\f must be a font-table entry of the requested number and mapped name. A hook checks that the colour set active at each index lookup is the encoding document's own.",
+   note="trusted: reader; repository colour dictionary as data (name -> RGB); matrix colours only on one-page tables"),
  "C13": dict(cat="exploration", ref="5/C13",
    technique="runtime monitoring: parsed group_by cells per page vs an independent suppression rule; exception class observed for non-contiguous keys; exhaustive small key sequences",
    text="All key sequences over {a,b,null} up to the stated lengths for 1-3 group_by levels are rendered by the real library at several page sizes; the parsed group_by cells must be blank exactly for true repeats not at a page start; non-contiguous keys must raise ValueError and contiguous ones must not. Random longer sequences with int/str keys and page_by/subline_by on other columns widen the reach.",
